@@ -1,4 +1,5 @@
 #include <cmath>
+#include <limits>
 #include <nano/core/numeric.h>
 #include <nano/core/stream.h>
 #include <nano/core/tokenizer.h>
@@ -41,8 +42,26 @@ auto& update(const string_t& name, parameter_t::enum_t& param, string_t value)
 }
 
 template <class tscalar, class tvalue>
+bool convertible([[maybe_unused]] const tvalue value)
+{
+    // NB: converting a non-finite or out-of-range floating point value to an integer is undefined behaviour!
+    if constexpr (std::is_integral_v<tscalar> && std::is_floating_point_v<tvalue>)
+    {
+        static_assert(std::is_signed_v<tscalar>);
+        constexpr auto lowest = static_cast<tvalue>(std::numeric_limits<tscalar>::lowest());
+        return std::isfinite(value) && value >= lowest && value < -lowest;
+    }
+    else
+    {
+        return true;
+    }
+}
+
+template <class tscalar, class tvalue>
 auto& update(const string_t& name, parameter_t::range_t<tscalar>& param, tvalue value_)
 {
+    critical(!::convertible<tscalar>(value_), "parameter (", name, "): cannot convert value (", value_, ")!");
+
     const auto value = static_cast<tscalar>(value_);
 
     critical(!::nano::isfinite(value) || !::check(param.m_mincomp, param.m_min, value) ||
@@ -57,6 +76,9 @@ auto& update(const string_t& name, parameter_t::range_t<tscalar>& param, tvalue 
 template <class tscalar, class tvalue1, class tvalue2>
 auto& update(const string_t& name, parameter_t::pair_range_t<tscalar>& param, tvalue1 value1_, tvalue2 value2_)
 {
+    critical(!::convertible<tscalar>(value1_) || !::convertible<tscalar>(value2_), "parameter (", name,
+             "): cannot convert values (", value1_, ",", value2_, ")!");
+
     const auto value1 = static_cast<tscalar>(value1_);
     const auto value2 = static_cast<tscalar>(value2_);
 
